@@ -55,6 +55,8 @@ type composeSpec struct {
 	// skipTruncated: paths cut by the exploration bounds (unbounded descent for
 	// ever closer points) are left out and counted instead of failing the case
 	skipTruncated bool
+	// splitBools: an undecided comparison feeding a boolean == / != partitions the path (its truth becomes a fact)
+	splitBools bool
 	// precise: byte-precise library models (interp_precise.go)
 	precise bool
 	// intervals: float intervals are propagated through arithmetic (interp_intervals.go)
@@ -305,7 +307,8 @@ func runComposeCase(p *Program, it *Interp, sp *composeSpec, cs composeCase) (re
 	it.Intervals = sp.intervals
 	it.Precise = sp.precise
 	it.GeneralPosition = sp.generalPosition
-	it.NonNeg, it.Positive = nil, nil
+	it.SplitBools = sp.splitBools
+	it.NonNeg, it.Positive, it.Infinitesimal = nil, nil, nil
 	it.TermLimit = sp.termLimit
 	it.MaxIter = sp.maxIter
 	it.lim.MaxVisits = 64
